@@ -416,6 +416,13 @@ func c20Scenarios(tier string) []SrvScenario {
 	out = append(out, SrvScenario{Name: "F3-shutdown-2conns", Accepts: []string{"conn", "conn"}, Clients: [][]string{{"EHLO c1.example\r\n", "QUIT\r\n"}, {"EHLO c2.example\r\n", "<EOF>"}}, Admin: []string{"shutdown", "close2"}})
 	out = append(out, SrvScenario{Name: "F3-close-then-shutdown", Accepts: []string{"conn"}, Clients: [][]string{{"EHLO c.example\r\n", "NOOP\r\n"}}, Admin: []string{"close", "shutdown2", "close2"}})
 	out = append(out, SrvScenario{Name: "F3-shutdown-mid-bdat", Accepts: []string{"conn"}, Clients: [][]string{{chunk, "BDAT 3 LAST\r\nabc", "QUIT\r\n"}}, Admin: []string{"shutdown", "cancel"}, Gates: []string{"return"}, Chunked: true})
+	// F6: Close while the command loop is inside an envelope callback (NewSession, Mail, Rcpt are scheduling points)
+	for _, end := range []string{"QUIT\r\n", "<EOF>"} {
+		out = append(out, SrvScenario{Name: "F6-close-during-callbacks-" + strings.TrimSpace(strings.ReplaceAll(end, "<EOF>", "disconnect")), Accepts: []string{"conn"},
+			Clients: [][]string{{"EHLO c.example\r\n", "MAIL FROM:<ok@a.example>\r\nRCPT TO:<ok1@b.example>\r\n", end}}, Admin: []string{"close"}, Gates: []string{"NewSession", "Mail", "Rcpt"}})
+	}
+	out = append(out, SrvScenario{Name: "F6-shutdown-during-callbacks", Accepts: []string{"conn"},
+		Clients: [][]string{{"EHLO c.example\r\n", "MAIL FROM:<ok@a.example>\r\n", "QUIT\r\n"}}, Admin: []string{"shutdown", "close2"}, Gates: []string{"NewSession", "Mail"}})
 	// F4: all sequences of Accept answers
 	maxLen := 4
 	if tier == "thorough" {
@@ -579,7 +586,7 @@ func C20(tier string) int {
 	if tier == "thorough" {
 		lockBound = 3
 	}
-	run.Rule = fmt.Sprintf("schedule exploration (testing/synctest bubbles, go-smtp built with channel-based mutexes via build overlay so that every blocked goroutine is visible): %d scenarios - F1 chunked transfer with a slow or non-reading backend followed by {RSET, LAST chunk, RSET+next transaction, QUIT, disconnect} with Server.Close fired at ANY point; F2 LMTP DATA/BDAT with a slow per-recipient backend + Close/disconnect; F3 Shutdown(ctx) with one/two connections and {QUIT, disconnect, ctx cancel, second Close/Shutdown}; F4 ALL sequences of <=%d Accept answers over {temporary error, connection, permanent error} with the virtual clock; events = Accept answers, client segments/disconnect, backend steps, admin calls, clock. F1-F4: ALL interleavings. F5: F1/F3/F4 representatives with every Lock() as an additional scheduling point, deviation (preemption) bound %d. states = scenarios, transitions = scheduling decisions, traces = executions of the real server. Oracle per execution: no goroutine left behind (runtime check at bubble exit), Serve returns (nil after Close/Shutdown, the permanent error otherwise, never on temporary errors), every accepted connection closed once Close has run, first Close/Shutdown returns nil / ctx error, later ones ErrServerClosed, one Logout per session and nothing after it, no recovered panic. The data-race clause is decided by free-running -race replays (see coverage.race).", len(scs), map[bool]int{true: 5, false: 4}[tier == "thorough"], lockBound)
+	run.Rule = fmt.Sprintf("schedule exploration (testing/synctest bubbles, go-smtp built with channel-based mutexes via build overlay so that every blocked goroutine is visible): %d scenarios - F1 chunked transfer with a slow or non-reading backend followed by {RSET, LAST chunk, RSET+next transaction, QUIT, disconnect} with Server.Close fired at ANY point; F2 LMTP DATA/BDAT with a slow per-recipient backend + Close/disconnect; F3 Shutdown(ctx) with one/two connections and {QUIT, disconnect, ctx cancel, second Close/Shutdown}; F6 Close/Shutdown while the command loop is inside NewSession/Mail/Rcpt; F4 ALL sequences of <=%d Accept answers over {temporary error, connection, permanent error} with the virtual clock; events = Accept answers, client segments/disconnect, backend steps, admin calls, clock. F1-F4: ALL interleavings. F5: F1/F3/F4 representatives with every Lock() as an additional scheduling point, deviation (preemption) bound %d. states = scenarios, transitions = scheduling decisions, traces = executions of the real server. Oracle per execution: no goroutine left behind (runtime check at bubble exit), Serve returns (nil after Close/Shutdown, the permanent error otherwise, never on temporary errors), every accepted connection closed once Close has run, first Close/Shutdown returns nil / ctx error, later ones ErrServerClosed, one Logout per session and nothing after it, no recovered panic. The data-race clause is decided by free-running -race replays (see coverage.race).", len(scs), map[bool]int{true: 5, false: 4}[tier == "thorough"], lockBound)
 	run.Assumptions = []string{"stretches of execution between two scheduling points run under the Go scheduler; they are assumed to commute unless the race detector says otherwise", "admin events are generated only after Serve has called Accept once (C20 speaks about ending a running Serve)"}
 	h.ParallelFor(len(scs), func(i int) {
 		if run.Expired() {
